@@ -33,6 +33,15 @@ constexpr bool pre_mul16(long x, long y) { return x >= 0 && y >= 0 && x < (1l <<
 constexpr bool post_atan(fixed_t x, fixed_t r)
   { return r.v >= -PIDIV2 && r.v <= PIDIV2 && (x.v != 0 || r.v == 0) && (x.v <= 0 || r.v >= 0) && (x.v >= 0 || r.v <= 0) && (x.v < (1l << 34) || r.v == PIDIV2); }
 constexpr bool lem_c11_odd(fixed_t x) { return atan(-x) == -atan(x); }
+// atan2 factors through the fixed division and atan: for x != 0 it is exactly atan(y / x), plus or minus the library's pi in the left
+// half-plane.  With this lemma the accuracy clause of atan2 reduces to that of operator/ (C03) and of atan; a change of the quadrant
+// offset, of the operand order of the quotient or of the branch structure fails here for all pairs, not only on the sampled ones.
+constexpr bool lem_c11_atan2_factors(fixed_t y, fixed_t x)
+  {
+  if( x.v == 0 ) return true;
+  fixed_t const a = atan(y / x), r = atan2(y, x);
+  return x.v > 0 ? r.v == a.v : y.v >= 0 ? r.v == (a + phi).v : r.v == (a - phi).v;
+  }
 // atan2: quadrant / axis / NaN clauses
 constexpr bool pre_c11_atan2(fixed_t y, fixed_t x) { return y.v > -(1l << 47) && y.v < (1l << 47) && x.v > -(1l << 47) && x.v < (1l << 47); }
 constexpr bool post_atan2(fixed_t y, fixed_t x, fixed_t r)
